@@ -40,7 +40,9 @@ _scratch_dirs = []
 
 
 def scratch(prefix="vf"):
-    d = tempfile.mkdtemp(prefix="aldor-verif-%s-" % prefix, dir=os.environ.get("VERIF_TMP", "/tmp"))
+    base = os.environ.get("VERIF_TMP", "/var/tmp/aldor-verif-scratch")
+    os.makedirs(base, exist_ok=True)
+    d = tempfile.mkdtemp(prefix="%s-%d-" % (prefix, os.getpid()), dir=base)
     _scratch_dirs.append(d)
     return d
 
@@ -218,7 +220,8 @@ def vbuild(guard=True, extra_cflags=(), tag=""):
                           [os.path.join(tmp, "rt", s[:-2] + ".o") for s in RUNTIME_C] + [os.path.join(tmp, "rt", "runtime.o")])
     objs = [os.path.join(tmp, "obj", s[:-2] + ".o") for s in groups["aldor"]]
     subprocess.check_call(["gcc", "-o", os.path.join(tmp, "aldor")] + objs +
-                          [os.path.join(tmp, l) for l in ("libphase.a", "libstruct.a", "libgen.a", "libport.a")] + ["-lm"])
+                          [os.path.join(tmp, l) for l in ("libphase.a", "libstruct.a", "libgen.a", "libport.a")] + ["-lm"] +
+                          [f for f in extra_cflags if f.startswith("-fsanitize")])     # sanitizer run-times are linked by the same flag
     open(os.path.join(tmp, "OK"), "w").close()
     try:
         os.rename(tmp, d)
